@@ -477,8 +477,11 @@ def icg_dataset(ctx, fails, ds, rc):
     shapes = [('plan-per-individual', [list(p0)] * n, True), ('plan-per-individual-ndarray', np.array([list(p0)] * n), True),
               ('plan-one-row-2d', [list(p0)], True),
               ('plan-too-few-rows', [list(p0)] * (n - 1), False), ('plan-too-many-columns', list(p0) + [1], False)]
+    if dfi is not None:
+        # one row per individual on a frame whose row labels are not 0..n-1 (a subset of a cohort keeps the cohort's labels)
+        shapes.append(('plan-per-individual-nondefault-index', np.array([list(p0)] * n), True))
     for name, arg, valid in shapes:
-        o = run_icg(df0, K, arg)
+        o = run_icg(dfi if name.endswith('nondefault-index') else df0, K, arg)
         ctx.programs += 1
         ctx.disagreements_checked += 1
         ctx.count('icg:shape=' + name)
